@@ -153,11 +153,15 @@ func (m *modeler) mergeList(f *field, pre reflect.Value, cv *cval, pol string) r
 		if f.kind == kSlicePrim {
 			return cv.list[i].want
 		}
-		e := reflect.New(f.sub.typ).Elem()
-		if base.IsValid() {
+		p := reflect.New(f.sub.typ)
+		e := p.Elem()
+		if base = deref(base); base.IsValid() {
 			e.Set(base)
 		}
 		(&modeler{}).applyStruct(f.sub, e, cv.list[i], polCtx{"default", "none"})
+		if f.elemPtr {
+			return p
+		}
 		return e
 	}
 	pl := pre.Len()
